@@ -455,10 +455,13 @@ def r54(ctx: Ctx) -> RuleReport:
     # which slots of the remaining triples feed the set?
     slots: Set[int] = set()
     over_triples = False
+    # `remaining = [...]; self.triples[:] = remaining`: the local is the list of the triples that remain
+    remaining_names = {norm(n.value) for n in walk_local(fi.node) if isinstance(n, ast.Assign) and norm(n.targets[0]) in ('self.triples', 'self.triples[:]')
+                       and isinstance(n.value, ast.Name)}
     for n in ast.walk(sv):
         if isinstance(n, (ast.GeneratorExp, ast.SetComp, ast.ListComp)):
             gens = n.generators
-            if norm(gens[0].iter) == 'self.triples':
+            if norm(gens[0].iter) == 'self.triples' or norm(gens[0].iter) in remaining_names:
                 over_triples = True
                 tv = gens[0].target
                 if isinstance(tv, ast.Name):
@@ -498,7 +501,8 @@ def r54(ctx: Ctx) -> RuleReport:
     sdef = next((n for n in walk_local(fi.node) if isinstance(n, ast.Assign) and norm(n.targets[0]) == setname), None)
     rem = next((n for n in walk_local(fi.node) if isinstance(n, ast.Assign) and norm(n.targets[0]).startswith('self.triples')), None)
     if sdef is not None and rem is not None:
-        order_ok = cfg.node_of(sdef) in cfg.reachable_from([cfg.node_of(rem)])
+        over_local = any(isinstance(x, ast.comprehension) and norm(x.iter) in remaining_names for x in ast.walk(sdef))
+        order_ok = over_local or cfg.node_of(sdef) in cfg.reachable_from([cfg.node_of(rem)])
         rep.add('penman.graph:Graph.__isub__: occurrence is judged on the triples that remain', fi.loc(sdef), 'ok' if order_ok else 'undecided')
     return rep
 
@@ -1554,6 +1558,15 @@ def r77(ctx: Ctx) -> RuleReport:
             for nd in body_nodes:
                 if nd.kind == 'stmt':
                     names |= assigned_names(nd.ast)
+            item_defs = set()
+            if isinstance(loop, ast.While):
+                # `t = next(items, None)` ... `while t is not None: ...; t = next(items, None)`: t is the item of the round that follows, as a for target is
+                tested = {x.id for x in ast.walk(loop.test) if isinstance(x, ast.Name)}
+                for nd in body_nodes:
+                    a = nd.ast
+                    if nd.kind == 'stmt' and isinstance(a, ast.Assign) and len(a.targets) == 1 and isinstance(a.targets[0], ast.Name) and a.targets[0].id in tested \
+                            and isinstance(a.value, ast.Call) and norm(a.value.func) == 'next' and a.value.args:
+                        item_defs.add(nd.id)
             key = f'{fi.module.name}:{fi.qualname}: loop at {norm(loop)[:40].splitlines()[0]}'
             carried = []
             for x in sorted(names - loop_target):
@@ -1567,7 +1580,7 @@ def r77(ctx: Ctx) -> RuleReport:
                             and isinstance(a.value.op, (ast.BitOr, ast.Add)) and norm(a.value.left) == a.targets[0].id:
                         return True         # x = x | y  /  x = x + y : an accumulator
                     return isinstance(a, ast.Assign) and isinstance(a.value, ast.Constant) and isinstance(a.value.value, (bool, int))
-                if all(harmless(d) for d in defs):
+                if all(harmless(d) or d.id in item_defs for d in defs):
                     continue
                 redef = {d.id for d in defs}
 
@@ -1581,7 +1594,7 @@ def r77(ctx: Ctx) -> RuleReport:
                             return False
                     return any(isinstance(y, ast.Name) and y.id == x and isinstance(y.ctx, ast.Load) for y in ast.walk(root))
                 for d in defs:
-                    if harmless(d):
+                    if harmless(d) or d.id in item_defs:
                         continue
                     # def -> loop head without another definition ...
                     p1 = cfg.path_avoiding([(d.id, None)], {head}, lambda nd: nd.id in redef and nd.id != d.id)
@@ -2219,6 +2232,36 @@ def r86(ctx: Ctx) -> RuleReport:
 
 
 # ---------------------------------------------------------------------------------------------
+def _derived_from(fn: ast.AST, param: str):
+    """names of `fn` whose value is built from `param` (assignment, loop target, append/extend/update of a derived value), and the
+    statements that read `param` itself to feed one of them"""
+    derived, feeders = set(), []
+    def reads(e, names):
+        return e is not None and any(isinstance(x, ast.Name) and x.id in names for x in ast.walk(e))
+    changed = True
+    while changed:
+        changed = False
+        for st in walk_local(fn):
+            new, src = set(), None
+            if isinstance(st, (ast.Assign, ast.AnnAssign, ast.AugAssign)) and st.value is not None:
+                tg = st.targets if isinstance(st, ast.Assign) else [st.target]
+                new, src = {x.id for t in tg for x in ast.walk(t) if isinstance(x, ast.Name) and not isinstance(t, (ast.Attribute, ast.Subscript))}, st.value
+            elif isinstance(st, (ast.For, ast.comprehension)):
+                new, src = {x.id for x in ast.walk(st.target) if isinstance(x, ast.Name)}, st.iter
+            elif isinstance(st, ast.Expr) and isinstance(st.value, ast.Call) and isinstance(st.value.func, ast.Attribute) \
+                    and isinstance(st.value.func.value, ast.Name) and st.value.func.attr in ('append', 'extend', 'add', 'insert', 'update', 'setdefault'):
+                new, src = {st.value.func.value.id}, ast.Tuple(elts=list(st.value.args) + [k.value for k in st.value.keywords], ctx=ast.Load())
+            new.discard(param)
+            if not new or src is None:
+                continue
+            if reads(src, {param}) and st not in feeders and isinstance(st, (ast.stmt,)):
+                feeders.append(st)
+            if reads(src, derived | {param}) and not new <= derived:
+                derived |= new
+                changed = True
+    return derived, feeders
+
+
 @rule('R88', 'what a constructor is given reaches the object (self.x derives from the parameter x), and metadata travels with the graph / tree through every conversion')
 def r88(ctx: Ctx) -> RuleReport:
     from ..cfg import reaching_defs
@@ -2241,9 +2284,15 @@ def r88(ctx: Ctx) -> RuleReport:
             key = f'{init.fq}: self.{n.targets[0].attr} derives from the parameter {attr}'
             nid = cfg.node_of(n)
             uses = [x for x in ast.walk(n.value) if isinstance(x, ast.Name) and x.id == attr]
+            target_nids = [nid]
             if not uses:
-                rep.violation(key, init.loc(n), f'`{norm(n)[:60]}` does not use the parameter `{attr}`: whatever the caller passes is ignored')
-                continue
+                # the value may be a local that was built from the parameter (a loop appending the converted items)
+                derived, feeders = _derived_from(init.node, attr)
+                if any(isinstance(x, ast.Name) and x.id in derived for x in ast.walk(n.value)) and feeders:
+                    target_nids = [cfg.node_of(f) for f in feeders if cfg.node_of(f) is not None]
+                if target_nids == [nid] or not target_nids:
+                    rep.violation(key, init.loc(n), f'`{norm(n)[:60]}` does not use the parameter `{attr}`: whatever the caller passes is ignored')
+                    continue
             def carried(prune: bool) -> bool:
                 """can the caller's value (possibly wrapped: x = x or [], x = dict(x)) travel from the entry to this store?"""
                 seen_, stack_ = set(), [cfg.entry]
@@ -2252,7 +2301,7 @@ def r88(ctx: Ctx) -> RuleReport:
                     if x_ in seen_:
                         continue
                     seen_.add(x_)
-                    if x_ == nid:
+                    if x_ in target_nids:
                         return True
                     node_ = cfg.nodes[x_]
                     if x_ != cfg.entry and node_.kind in ('stmt', 'for') and node_.ast is not None and attr in assigned_names(node_.ast):
